@@ -48,7 +48,8 @@ def profile(**over: Any) -> Dict[str, Any]:
 # scheduling-stress programs: no operators / indexing needed, dense dependencies, flags as extra edges
 SCHED = profile(w_op=0, w_uop=0, w_logic=0, w_nested=0, n_stmts=(2, 10), p_more=0.8, p_kwarg=0.15,
                 ret_types=[("int", 6), ("bool", 2)], p_unpack=0, p_fn_unpack=0, n_params=(0, 2),
-                p_flag=0.15, ret_shapes=[("tuple", 1)], all_return=True, p_ret_const=0, p_dep=0.85)
+                p_flag=0.15, ret_shapes=[("tuple", 1)], all_return=True, p_ret_const=0, p_dep=0.85,
+                shape_bias=[("uniform", 3), ("recent", 2), ("early", 1), ("wide", 1), ("join", 2)])
 # flat graph programs for selection / debug / setup / cache / compose
 GRAPH = profile(w_op=0, w_uop=0, w_logic=0, w_nested=0, n_stmts=(2, 11), p_more=0.82, p_kwarg=0.2,
                 ret_types=[("int", 7), ("none", 1)], p_unpack=0, p_fn_unpack=0, n_params=(0, 2), p_flag=0.0,
@@ -313,6 +314,14 @@ class ProgramGen:
             cands = cands[:2]
         nargs = d.int(0, p["max_args"])
         args = [self.arg_expr(cands) for _ in range(nargs)]
+        if self.bias == "join" and not f["setup"]:
+            # independent nodes followed by a node that joins the two most recent results: siblings that run (and finish)
+            # together and a successor all of whose remaining parents may be harvested by one wait
+            own = [v for v in cands if not v.param]
+            if len(own) >= 2 and own[-1].stmt != own[-2].stmt and d.bool(0.5):
+                args = [["v", own[-1].name, []], ["v", own[-2].name, []]]
+            elif d.bool(0.7):
+                args = [a for a in args if a[0] == "c" or any(v.param and v.name == a[1] for v in cands)]
         if p["p_many_args"] and d.bool(p["p_many_args"]):
             # many positional constants: argument holders are named "<k>th argument" (ordinal suffixes beyond 20)
             args += [["c", str(i % 7)] for i in range(d.int(18, 26))]
